@@ -118,9 +118,11 @@ def run(tier, runner):
     r_xl.require(3, 'swap_impl / move_construct / move_assign instantiations of SmallVectorBase')
     r_xs = _ol.std_xchg_layout([p_ for p_ in progs if 'flavour' in p_.meta])
     r_xs.require(3, 'swap_impl / move_construct / move_assign instantiations of StdVectorBase')
+    r_gl = _ol.grow_layout([p_ for p_ in progs if 'flavour' in p_.meta])
+    r_gl.require(4, 'grow / shrink / resetToSmall instantiations of the vector bases')
     return {
-        'results': [r_w, r_r, r_es, r_span, r_it, r_ov, r_cd, r_tail, r_alias, r_bc, r_rp, r_vi, r_sd, r_seg, r_us, r_xl, r_xs] + r_sig,
-        'explanation': 'XCHG-STD: the same three members of StdVectorBase (amc::vector), with and without a block on either side: pointer, capacity and size change hands together, a moved-from vector holds (null, 0, 0), elements stay in their blocks, the receiver of a move assignment destroys its former elements and gives its block back once with its capacity.  XCHG-LAYOUT: swap_impl / move_construct / move_assign of SmallVectorBase are interpreted with two objects (size words, union, heap blocks) for each of the nine pairs of states (inline not full / inline full / heap): each vector ends - decoded from its own words - with the size and the elements it was to receive, in order, a moved-from vector is the empty inline vector, nothing else is alive, every heap block is owned by exactly one vector or was given back exactly once with its capacity.  UNION-STATE: swap / move / shrink read the heap pointer of a SmallVector only where it is known to be on the heap - requirements of private helpers (SwapDynamicBuffer(heap, inline), SwapDynStorage, resetToSmall ...) travel to their call sites, where the isSmall() case analysis must establish them for the argument passed in that position.  SEG-LAYOUT: for every member that inserts, removes or replaces elements (insert x5, emplace, erase x2, push_back / emplace_back, pop_back, clear, resize x2, assign x3, append x4) and every instantiation of the matrix, on every normal path the storage ends exactly as std::vector leaves it - old elements [0,P) in place, the new ones at [P,P+C) in source order, the old tail shifted by exactly C, size() == N + C, nothing alive beyond size() - decided for every N, P, C at once by an array-segmentation abstract interpretation (segment bounds are linear forms, branch conditions decided by Fourier-Motzkin or split, amc::vec helpers inlined, counted loops accelerated, memory algorithms as transformers).  This is the one-step refinement of C01: each operation maps the abstract sequence as std::vector does; sequences over histories follow by induction on the history for the operations covered, on normal paths.  SIGN-DIFF: no unsigned size difference is widened to a signed type after wrapping (orderings derived from sizes keep their sign).  C01 as stated (equality of sequences with std::vector over histories) is a statement about run-time values and is not decided.  '
+        'results': [r_w, r_r, r_es, r_span, r_it, r_ov, r_cd, r_tail, r_alias, r_bc, r_rp, r_vi, r_sd, r_seg, r_us, r_xl, r_xs, r_gl] + r_sig,
+        'explanation': 'GROW-LAYOUT: grow / shrink / resetToSmall (reserve, shrink_to_fit and every growing operation go through them) keep all elements in order in the storage the vector designates afterwards, in every state of the inline encoding, never ask the allocator for a zero-sized block, and give the old block back once.  XCHG-STD: the same three members of StdVectorBase (amc::vector), with and without a block on either side: pointer, capacity and size change hands together, a moved-from vector holds (null, 0, 0), elements stay in their blocks, the receiver of a move assignment destroys its former elements and gives its block back once with its capacity.  XCHG-LAYOUT: swap_impl / move_construct / move_assign of SmallVectorBase are interpreted with two objects (size words, union, heap blocks) for each of the nine pairs of states (inline not full / inline full / heap): each vector ends - decoded from its own words - with the size and the elements it was to receive, in order, a moved-from vector is the empty inline vector, nothing else is alive, every heap block is owned by exactly one vector or was given back exactly once with its capacity.  UNION-STATE: swap / move / shrink read the heap pointer of a SmallVector only where it is known to be on the heap - requirements of private helpers (SwapDynamicBuffer(heap, inline), SwapDynStorage, resetToSmall ...) travel to their call sites, where the isSmall() case analysis must establish them for the argument passed in that position.  SEG-LAYOUT: for every member that inserts, removes or replaces elements (insert x5, emplace, erase x2, push_back / emplace_back, pop_back, clear, resize x2, assign x3, append x4) and every instantiation of the matrix, on every normal path the storage ends exactly as std::vector leaves it - old elements [0,P) in place, the new ones at [P,P+C) in source order, the old tail shifted by exactly C, size() == N + C, nothing alive beyond size() - decided for every N, P, C at once by an array-segmentation abstract interpretation (segment bounds are linear forms, branch conditions decided by Fourier-Motzkin or split, amc::vec helpers inlined, counted loops accelerated, memory algorithms as transformers).  This is the one-step refinement of C01: each operation maps the abstract sequence as std::vector does; sequences over histories follow by induction on the history for the operations covered, on normal paths.  SIGN-DIFF: no unsigned size difference is widened to a signed type after wrapping (orderings derived from sizes keep their sign).  C01 as stated (equality of sequences with std::vector over histories) is a statement about run-time values and is not decided.  '
                        'Decided: structural clauses, each necessary for it.  ENC-W / ENC-R: the inline size/capacity words of SmallVector are written only '
                        'by the encoders, jointly, or on an object known to be large, and every value read of `_size` honours the full marker; ENC-SIB: the three encoders themselves agree on the discipline (count in `_capa`, marker set when the count reaches N, N restored under the marker before `_capa` changes, large branch writes only `_size`).  '
                        'INLINE-SPAN: the N inline slots lie inside the object and nothing else lives there (record layout of every inline instantiation).  '
